@@ -40,4 +40,5 @@ Next == AddSend \/ AddCloseReq \/ AddRecv \/ AddCloseResp \/ AddCancel
 Spec == Init /\ [][Next]_gv
 Complete == cresp \/ (canc # "no" /\ after >= 1)
 Emit == Complete => PrintT(ToJson([h |-> h, prog |-> prog, msend |-> sends, mrecv |-> recvs]))
+
 =============================================================================
